@@ -488,6 +488,8 @@ def gen_orderings(srcs):
     for key in ('repr', 'heap'):
         src = srcs[key]
         for fm in re.finditer(r'\bfn\s+(\w+)\s*(<[^>]*>)?\s*\(', src):
+            if fm.group(1).startswith('verif_'):
+                continue          # verification hook (cfg(lean_string_verif)), not part of the crate
             i = src.find('{', fm.end())
             semi = src.find(';', fm.end())
             if i < 0 or (0 <= semi < i):
